@@ -319,6 +319,11 @@ impl Bundle {
                     (Ordering::Less, Ordering::Greater) | (Ordering::Greater, Ordering::Less) => {
                         return None;
                     }
+                    // Neither bundle has excess spends or outputs, so the value sums must
+                    // match.
+                    (Ordering::Equal, Ordering::Equal) if self.value_sum != value_sum => {
+                        return None;
+                    }
                     // These cases mean that at least one of the two value sums is correct
                     // and we can use it directly.
                     (spends, outputs) => (spends, outputs),
